@@ -248,6 +248,11 @@ func (c *RepoCacheBug) NewRaw(author identity.Interface, unixTime int64, title s
 		return nil, nil, err
 	}
 
+	err = checkFilesStored(c.repo, files)
+	if err != nil {
+		return nil, nil, err
+	}
+
 	err = b.Commit(c.repo)
 	if err != nil {
 		return nil, nil, err
